@@ -118,6 +118,43 @@ func simulate(ta *ssa.TypeAssert, t types.Type) (body *ssa.BasicBlock, isDefault
 	return
 }
 
+// simulateDeep is simulate for rules that ask what is *done* for a type: it goes on into a switch on the same value
+// inside the arm (an arm that lists several types and tells them apart again).
+func simulateDeep(ta *ssa.TypeAssert, t types.Type) (body *ssa.BasicBlock, isDefault bool, matched *ssa.TypeAssert) {
+	body, isDefault, matched, _ = simulateFrom(ta, t)
+	// an arm that lists several types and switches on the same value again inside: go on in the inner switch
+	for depth := 0; depth < 3 && !isDefault && body != nil; depth++ {
+		var inner *ssa.TypeAssert
+		fn := ta.Parent()
+		for _, b := range fn.Blocks {
+			if !(b == body || body.Dominates(b)) {
+				continue
+			}
+			for _, in := range b.Instrs {
+				if x, ok := in.(*ssa.TypeAssert); ok && x.CommaOk && x != matched && sameSwitchVal(x.X, ta.X) && inner == nil {
+					inner = x
+				}
+			}
+			if inner != nil {
+				break
+			}
+		}
+		if inner == nil {
+			break
+		}
+		b2, d2, m2, _ := simulateFrom(inner, t)
+		if b2 == nil || m2 == nil && !d2 {
+			break
+		}
+		if d2 {
+			// no inner arm for this type: the outer arm's own code (behind the inner switch) is what runs
+			break
+		}
+		body, matched = b2, m2
+	}
+	return
+}
+
 // simulateFrom also returns the block holding the branch that decided.
 func simulateFrom(ta *ssa.TypeAssert, t types.Type) (body *ssa.BasicBlock, isDefault bool, matched *ssa.TypeAssert, from *ssa.BasicBlock) {
 	val := ta.X
